@@ -337,6 +337,18 @@ def build(p):
                     H.add_cb(fut, j, 1)
                 if sb.get("cb_raise") and sb.get("cb_raise") != "first":
                     fut.add_done_callback(bad_cb)
+                if sb.get("cb_shutdown"):
+                    # a done-callback (running on whichever thread completes the future - often an executor's own
+                    # worker thread) calls shutdown(wait=True) once somebody else's shutdown() has returned: a further
+                    # shutdown() is harmless from any thread
+                    def scb(f_):
+                        waited = 0
+                        while not state.get("shut_returned") and waited < 3000:
+                            E.vsleep(10)
+                            waited += 10
+                        if state.get("shut_returned"):
+                            H.do_shutdown(top, "top", True)
+                    fut.add_done_callback(scb)
                 if sb.get("nested_cb"):
                     def ncb(f_, j=j):
                         pf = H.do_submit(top, 200 + j, H.Scripted(200 + j, [("V", Val((200 + j, 1)))]))
@@ -358,6 +370,7 @@ def build(p):
                 if shutdown.get("cancel_futures") is not None:
                     kw["cancel_futures"] = bool(shutdown["cancel_futures"])
                 H.do_shutdown(top, "top", shutdown.get("wait", True), **kw)
+                state["shut_returned"] = True
 
         if shutdown:
             E.spawn("sh", shutter)
